@@ -320,6 +320,27 @@ EvalCalledLambda(t, env) ==     \* t = call whose func is a lam term
             IN IF ~ok THEN Err("TypeError-bind")
                ELSE Eval(lam.a[1], [x \in Range(lam.p) |-> bound[IndexOf(lam.p, x)]] @@ env)
 
+(* Captured one-line helper functions (C05): a call h(args) means Python calling the helper, *)
+(* i.e. the called lambda (lambda params: body)(args).  The table is rendered to real `def`s  *)
+(* and lambdas by the harness (harness/props_helpers.py HELPER_SOURCE must match).            *)
+LamD(ps, nd, body, defs) == T("lam", "", nd, ps, <<body>> \o defs)
+HelperNames == {"h_id", "h_inc", "h_sub", "h_lam", "h_nest", "h_nest2", "h_two", "h_cap", "h_kw"}
+HelperLam(f) ==
+    CASE f = "h_id"   -> Lam(<<"a">>, Name("a"))
+      [] f = "h_inc"  -> Lam(<<"a">>, BinOp("+", Name("a"), IntC(1)))
+      [] f = "h_sub"  -> LamD(<<"a", "b">>, 1, BinOp("-", Name("a"), Name("b")), <<IntC(5)>>)
+      [] f = "h_lam"  -> Lam(<<"a">>, BinOp("*", Name("a"), IntC(2)))
+      [] f = "h_nest" -> Lam(<<"a">>, Fn("Count", <<Fn("Select", <<Attr(Name("a"), "trks"),
+                                                       Lam(<<"a">>, Attr(Name("a"), "pt"))>>)>>))
+      [] f = "h_nest2" -> Lam(<<"a", "b">>,
+                              BinOp("+", Fn("Sum", <<Fn("Select", <<Attr(Name("a"), "trks"),
+                                                        Lam(<<"b">>, Attr(Name("b"), "pt"))>>)>>), Name("b")))
+      [] f = "h_two"  -> Lam(<<"j">>, Fn("h_inc", <<Attr(Name("j"), "pt")>>))
+      [] f = "h_cap"  -> Lam(<<"a">>, Fn("Sum", <<Fn("Select", <<Attr(Name("a"), "trks"),
+                                                     Lam(<<"t">>, BinOp("+", Attr(Name("t"), "pt"),
+                                                                         Attr(Name("a"), "pt")))>>)>>))
+      [] OTHER        -> LamD(<<"x", "y">>, 1, BinOp("-", BinOp("*", Name("x"), IntC(3)), Name("y")), <<IntC(2)>>)
+
 EvalFunc(t, env) ==      \* t = call whose func is a name
     LET f == t.a[1].s
         args == CallArgs(t)
@@ -329,6 +350,8 @@ EvalFunc(t, env) ==      \* t = call whose func is a name
        ELSE IF f \in SeqOps THEN
            IF Len(args) = 0 THEN Unm("operator-arity")
            ELSE SeqOp(f, Eval(args[1], env), Tail(args), t.p, kwv, env)
+       ELSE IF f \in HelperNames /\ f \notin DOMAIN env THEN
+           EvalCalledLambda([t EXCEPT !.a[1] = HelperLam(f)], env)
        ELSE IF f \in DOMAIN env THEN Unm("call-of-variable")
        ELSE LET avs == [i \in 1..Len(args) |-> Eval(args[i], env)]
                 kvs == [i \in 1..Len(kwv) |-> Eval(kwv[i], env)]
